@@ -204,6 +204,12 @@ func (r *Reader) Read(a []byte) (n int, err error) {
 	if err == nil && int64(n) == r.length-r.position {
 		err = io.EOF
 	}
+	if err == nil && n == 0 && len(a) > 0 {
+		// the piece is no longer available (it was evicted, or the
+		// torrent is gone): forget that we requested it, so that the
+		// next Read requests it again and waits
+		r.requestedIndex = -1
+	}
 
 	if err != nil {
 		r.request(-1, -1)
